@@ -194,6 +194,7 @@ func (st *State) execNext(fr *Frame, x *ssa.Next) bool {
 	}
 	st.assume(and(not(eq(m, "0")), st.mapHas(mt, m, k), not(sel(vis, k))))
 	st.setArr(visName, "(Array Int Bool)", store(vis, k, "true"))
+	st.countIteration()
 	v := st.mapGet(mt, m, k)
 	st.assumeLoaded(v)
 	out := Val{T: x.Type(), C: []string{"true", k}}
@@ -737,5 +738,14 @@ func (st *State) countRemoval(had string) {
 	st.e.ghostInit[name] = "(and (>= $ 0) (< $ 4611686018427387904))"
 	n := st.arr(name, "Int")
 	st.setArr(name, "Int", fmt.Sprintf("(+ %s %s)", n, ite(had, "1", "0")))
+	st.written[name] = true
+}
+
+// countIteration: ghost counter of keys handed out by map range loops and sync.Map.Range (iterated() in specs).
+func (st *State) countIteration() {
+	const name = "G|iterated"
+	st.e.ghostInit[name] = "(and (>= $ 0) (< $ 4611686018427387904))"
+	n := st.arr(name, "Int")
+	st.setArr(name, "Int", fmt.Sprintf("(+ %s 1)", n))
 	st.written[name] = true
 }
